@@ -5,10 +5,13 @@
 
 package hook
 
-// hasPermChannels is used by contract only (its body is encoding/json, assumed pure: A-JSON).
+// hasPermChannels is verified against the definition of permHas over the assumed json functions (A-JSON: decoding is a
+// pure partial function of the bytes, the target type and the strictness): the metadata is a json object with the key
+// "perm_channels" and decodes strictly (unknown fields rejected) into PermsMetadata.
 //@ func hasPermChannels
-//@   opt trusted
-//@   ensures hasPerms == permHas(metadata)
+//@   assumes permHas(metadata) <==> (len(metadata) > 0 && jsonObjOK(metadata) && isSome(jsonObj(metadata)["perm_channels"]) && jsonStrictOK_PermsMetadata(metadata))   // definition of permHas
+//@   ensures hasPerms == permHas(metadata)                                                       // C19: probe_then_strict_decode
+//@   ensures hasPerms ==> data == jsonStrict_PermsMetadata(metadata)                              // C19: channels_come_from_the_strict_decoding
 //@   assigns \nothing
 
 //@ func (BridgeHook) registerChannelAdmin
